@@ -454,10 +454,13 @@ Definition e_clock (m : mst) (e : list N) : N := match e with [17; d] => m_clock
 Definition e_ctx (m : mst) (e : list N) : N := match e with [1; c; _] => c | _ => m_ctx m end.
 (* the installed root context has been cancelled by its owner.  The property texts do not say whether such a context
    counts as "a context": the restarted flag / count of RestartRoutine / RestartAllRoutines may then be either value
-   (6/3), and the retry obligations (7/5: "run again after its backoff") exist only while the container holds a
-   context that is not cancelled - a run under a cancelled context ends at once, and a routine started under a root
-   that was cancelled later may record its exit after the container has dropped that root (k.ctx = nil without
-   ClearContext).  Everything else is judged as with a live context. *)
+   (6/3), and a pending retry (7/5: "run again after its backoff") has to be parked / carried out at its deadline only
+   while the container holds a context that is not cancelled - a run under a cancelled context ends at once.  The
+   obligation itself SURVIVES ClearContext, SetContext(nil) and a cancelled root being dropped (the retry timer stays
+   armed: these are non-restarting calls); if its callback runs while the container holds no live context the retry is
+   consumed without a restart (the callback checks k.ctx != nil).  A routine started under a root that was cancelled later
+   may record its exit after the container has dropped that root (k.ctx = nil without ClearContext): the retry is pending
+   all the same.  Everything else is judged as with a live context. *)
 Definition e_canc (m : mst) (e : list N) : list N := match e with [21; c] => c :: m_canc m | _ => m_canc m end.
 Definition e_live (m : mst) (e : list N) : bool := nz (e_ctx m e) && negb (nmem (e_ctx m e) (e_canc m e)).
 Definition e_late (e : list N) (p : pobs) : bool :=
@@ -544,10 +547,11 @@ Definition c76 (m : mst) (e : list N) (p : pobs) : bool :=
                     negb (N.eqb c 3) || nz canc || negb (gone (keys2_of m e p) (e_clock m e) (po_tims p) k)) (po_insts p).
 Definition c77 (m : mst) (e : list N) (p : pobs) : bool :=
   forallb (fun x => negb (gone (keys2_of m e p) (e_clock m e) (po_tims p) (ikey_of x))) (news_of m p).
-(* retry obligations *)
+(* retry obligations: key -> deadline of the pending retry of the key's current record.  Created by the recorded error exit
+   of the current record (retry_delta); dropped when the key is reset, leaves the set, gets a new instance (the retry, or a
+   restart), or records a success; NOT dropped by a cleared / cancelled context *)
 Definition retry0_of (m : mst) (e : list N) : list (N * N) :=
   match e with
-  | [1; 0; _] => []
   | [6; k; c] => if cond_ok c k then adel (m_retry m) k else m_retry m
   | [8; c] => filter (fun kd => negb (cond_ok c (fst kd))) (m_retry m)
   | _ => m_retry m
@@ -569,15 +573,28 @@ Definition retry_delta (script : option (list N)) (keys : list (N * N)) (clock' 
   else (aset bo (pk k d) 0%nat, if cur then adel rt k else rt).
 Definition retry1_of (m : mst) (e : list N) (p : pobs) : list (N * nat) * list (N * N) :=
   fold_left (retry_delta (m_script m) (po_keys p) (e_clock m e)) (po_delta p) (m_bo m, retry0_of m e).
+Definition retry2_of (m : mst) (e : list N) (p : pobs) : list (N * N) :=
+  fold_left (fun rt k => adel rt k) (map ikey_of (news_of m p)) (snd (retry1_of m e p)).
+(* the callback of a pending retry (kind 0, the key, the deadline) runs while the container holds no live context: the
+   retry is consumed.  With a live context it is not dropped here: the new instance must appear (news). *)
+Definition consumed_of (m : mst) (e : list N) (rt : list (N * N)) : list (N * N) :=
+  match e with
+  | [18; j] =>
+    match nth_error (m_tims m) (n2n j) with
+    | Some (kind, k, dl) =>
+      if N.eqb kind 0 && negb (e_live m e) && match alook rt k with Some d => N.eqb d dl | None => false end then adel rt k else rt
+    | None => rt
+    end
+  | _ => rt
+  end.
 Definition retry3_of (m : mst) (e : list N) (p : pobs) : list (N * N) :=
-  if e_live m e
-  then filter (fun kd => ahas (po_keys p) (fst kd))
-              (fold_left (fun rt k => adel rt k) (map ikey_of (news_of m p)) (snd (retry1_of m e p)))
-  else [].
+  filter (fun kd => ahas (po_keys p) (fst kd)) (consumed_of m e (retry2_of m e p)).
 Definition parked_retry (tims : list (N * N * N)) (k : N) : bool :=
   existsb (fun t => let '(kind, k', _) := t in N.eqb kind 0 && N.eqb k' k) tims.
+(* a retry whose deadline has passed is parked (or has been carried out: then it is no obligation any more) - judged while
+   the container holds a live context *)
 Definition c75 (m : mst) (e : list N) (p : pobs) : bool :=
-  forallb (fun kd => negb (N.leb (snd kd) (e_clock m e)) || parked_retry (po_tims p) (fst kd)) (retry3_of m e p).
+  forallb (fun kd => negb (N.leb (snd kd) (e_clock m e)) || negb (e_live m e) || parked_retry (po_tims p) (fst kd)) (retry3_of m e p).
 
 Definition mon1 (m : mst) (e : list N) (p : pobs) : mst * list (nat * nat) :=
   ({| m_delay := m_delay m; m_script := m_script m; m_clock := e_clock m e; m_ctx := e_ctx m e; m_ref := ref2 m e p;
